@@ -149,7 +149,7 @@ func (c *Check) Finish() int {
 	}
 	if c.MergeKey != "" {
 		var old map[string]any
-		if ob, err := os.ReadFile(filepath.Join(Root, "evidence", c.Prop+".json")); err == nil && json.Unmarshal(ob, &old) == nil {
+		if ob, err := os.ReadFile(filepath.Join(evidenceDir(), c.Prop+".json")); err == nil && json.Unmarshal(ob, &old) == nil {
 			if cov, ok := old["coverage"].(map[string]any); ok {
 				cov[c.MergeKey] = c.Coverage
 				if ex, ok := c.Coverage["exhaustive"].(bool); ok && !ex {
@@ -172,11 +172,20 @@ func (c *Check) Finish() int {
 		}
 	}
 	b, _ := json.MarshalIndent(ev, "", " ")
-	_ = os.MkdirAll(filepath.Join(Root, "evidence"), 0o755)
-	if err := os.WriteFile(filepath.Join(Root, "evidence", c.Prop+".json"), b, 0o644); err != nil {
+	_ = os.MkdirAll(evidenceDir(), 0o755)
+	if err := os.WriteFile(filepath.Join(evidenceDir(), c.Prop+".json"), b, 0o644); err != nil {
 		fmt.Fprintln(os.Stderr, "evidence:", err)
 		return 2
 	}
 	fmt.Printf("%s %s: %d violation(s), %d known finding(s), %.1fs\n", c.Prop, c.Tier, unknown, knownHits, time.Since(c.Start).Seconds())
 	return exit
+}
+
+// evidenceDir is <root>/evidence; VERIF_EVIDENCE_DIR redirects it (runs against a candidate change must not overwrite the
+// evidence of the tree that is registered).
+func evidenceDir() string {
+	if d := os.Getenv("VERIF_EVIDENCE_DIR"); d != "" {
+		return d
+	}
+	return filepath.Join(Root, "evidence")
 }
